@@ -1749,8 +1749,7 @@ fn main() {
     ctx.prop_stage("codec-roundtrip", Isolation::Threads, ctx.n(8_000, 100_000), rt_strategy, test_roundtrip);
     }
     if on("codec-bytes") {
-    let iso = if std::env::var("C14_PROCS").is_ok() { Isolation::Procs } else { Isolation::Threads };
-    ctx.prop_stage("codec-bytes", iso, ctx.n(600_000, 4_000_000), bytes_strategy, test_bytes);
+    ctx.prop_stage("codec-bytes", Isolation::Threads, ctx.n(600_000, 4_000_000), bytes_strategy, test_bytes);
     }
     if on("codec-filled-root") {
     ctx.index_stage("codec-filled-root", Isolation::Threads, 4, root_case, test_root);
